@@ -256,6 +256,41 @@ def leg_c_reshape(ctx, rng, n):
                     ctx.fail("C", "reshape-roundtrip", case, back, finding=findings.classify(PID, name, case, back))
 
 
+def leg_c_broadcast_runs(ctx, rng, n):
+    """broadcast_to / broadcast_arrays where the stretched axes form RUNS between kept axes ((3,1,1,4) -> (3,2,2,4)), lead the shape, end
+    it, or alternate with kept axes: values and canonical form (the `sorted=` promise of broadcast_to depends on exactly this pattern)"""
+    import sparse
+
+    for k in range(n):
+        nd = int(rng.integers(1, 6))
+        kinds = [str(rng.choice(["keep", "one", "one"])) for _ in range(nd)]
+        src = tuple(1 if kd == "one" else int(rng.integers(2, 4)) for kd in kinds)
+        tgt = tuple(int(rng.integers(1, 4)) if kd == "one" else e for kd, e in zip(kinds, src))
+        lead = tuple(int(v) for v in rng.integers(1, 3, size=int(rng.integers(0, 2))))
+        tgt = lead + tgt
+        fill = int(rng.choice([0, 0, 2]))
+        d = gen.dense(rng, src, fill, density=float(rng.choice([0.4, 0.8, 1.0])))
+        x = sparse.COO.from_numpy(d, fill_value=fill)
+        case = {"op": "broadcast_to", "shape": list(src), "target": list(tgt), "fill": fill, "dense": d.tolist()}
+        for name, it, rt in [("broadcast_to", lambda: sparse.broadcast_to(x, tgt), lambda: np.broadcast_to(d, tgt)),
+                             ("x.broadcast_to", lambda: x.broadcast_to(tgt), lambda: np.broadcast_to(d, tgt)),
+                             ("broadcast_arrays", lambda: sparse.broadcast_arrays(x, sparse.COO.from_numpy(np.zeros(tgt, dtype=d.dtype), fill_value=fill))[0],
+                              lambda: np.broadcast_to(d, tgt))]:
+            ctx.case(f"C:broadcast-runs:{name}", case, nontrivial=True)
+            msg = oracle.compare(it, rt, fill=np.asarray(fill, dtype=d.dtype))
+            if not msg:
+                # a second operation on the result relies on its promised order
+                try:
+                    r = it()
+                    if r.ndim:
+                        msg = oracle.compare(lambda: r[..., -1], lambda: np.broadcast_to(d, tgt)[..., -1], fill=np.asarray(fill, dtype=d.dtype), scalar_rule=True)
+                        msg = msg or oracle.compare(lambda: r.max(axis=-1), lambda: np.broadcast_to(d, tgt).max(axis=-1)) if tgt[-1] else msg
+                except Exception as e:  # noqa: BLE001
+                    msg = f"follow-up on the broadcast result raised {type(e).__name__}: {str(e)[:100]}"
+            if msg:
+                ctx.fail("C", name, case, msg, finding=findings.classify(PID, name, case, msg))
+
+
 def run(ctx):
     ctx.trusted = TRUSTED
     ctx.assumptions = ["NumPy's functions are the specification", "element values are small integers (exact) or halves"]
@@ -264,6 +299,7 @@ def run(ctx):
     leg_a(ctx, rng, 300 if ctx.quick else 3000)
     leg_c(ctx, rng, 120 if ctx.quick else 1500)
     leg_c_reshape(ctx, rng, 250 if ctx.quick else 4000)
+    leg_c_broadcast_runs(ctx, rng, 150 if ctx.quick else 3000)
     ctx.cov["rule"] = ("leg A: random COO arrays (rank 0-4, extents {0..7}, fills {0,2,-1}) x one shape operation, model vs implementation "
                        "on coords/data/shape/fill; leg C: every shape function on COO and GCXS(random compressed axes) vs NumPy; "
                        "leg C reshape-ranks: sizes 12..60 (and zero-size), source and target of every rank 1..4, COO / GCXS (every compressed-axes choice, "
